@@ -35,7 +35,17 @@ class AddInteraction(Contract):
             for t in ('int', 'none'):
                 for e in ('none', 'int'):
                     out.append({'mode': mode, 't': t, 'e': e})
+        # the property's form of I4 ("every run longer than ONE instant is closed") proved from itself
+        for e in ('none', 'int'):
+            out.append({'mode': 'removal', 't': 'int', 'e': e, 'inv': 'strong'})
         return out
+
+    def region_D06(self, c):
+        """a single-instant latest run extended by a point add at the next instant (pinned by the suite)"""
+        if c.e is not None or c.t is None:
+            return z3.BoolVal(False)
+        r, n, S, E = spec.tl(c.pre, c.u, c.v)
+        return z3.And(r != 0, S[n - 1] == E[n - 1], c.t == E[n - 1] + 1)
 
     # ------------------------------------------------------------------ pre-state
     def setup(self, ctx, variant):
@@ -56,11 +66,12 @@ class AddInteraction(Contract):
         nodes = [u, v, qx, qy, qx2, qy2]
         pairs = [(u, v), (qx, qy)]
         ctx.feas_skip = {'events', 'link', 'hint'}
+        strong = variant.get('inv') == 'strong'
         if removal:
-            spec.inv_assume(ctx, g, view0, nodes, pairs, shape_pairs=[(v, u), (qy, qx), (qx2, qy2)], k=2)
+            spec.inv_assume(ctx, g, view0, nodes, pairs, shape_pairs=[(v, u), (qy, qx), (qx2, qy2)], k=1 if strong else 2)
         else:
             from . import accum
-            accum.inv_assume(ctx, g, view0, nodes, pairs)
+            accum.inv_assume(ctx, g, view0, nodes, pairs, shape_pairs=[(v, u), (qy, qx), (qx2, qy2)])
         if self.bound_n is not None:
             # refutation mode only: a small closed world (any model is still a model of the unbounded VC)
             a_, b_ = z3.Consts('a?cw b?cw', Node)
@@ -71,6 +82,8 @@ class AddInteraction(Contract):
         if t is not None and e is not None:
             ctx.assume(e > t)                       # D23: e <= t is outside the contract
         pre = g.snapshot()
+        if strong and 'D06' in getattr(self, 'excluded_regions', ()):
+            ctx.assume(z3.Not(self.region_D06(Call(pre=pre, u=u, v=v, t=t, e=e))))
         argv = [VGraph(g), VNode(u), VNode(v), VInt(t) if t is not None else VNone,
                 VInt(e) if e is not None else VNone]
         return Call(g=g, pre=pre, u=u, v=v, t=t, e=e, view0=view0, qx=qx, qy=qy, qx2=qx2, qy2=qy2,
@@ -101,6 +114,14 @@ class AddInteraction(Contract):
     def finish(self, ctx, c, outcome):
         g, pre = c.g, c.pre
         T = lambda *ids: tuple(ids)
+        if c.variant.get('inv') == 'strong':
+            if outcome[0] == 'return' and c.t is not None:
+                x, y, q, op = c.qx, c.qy, c.qq, c.qop
+                f = spec.events_goals(g, x, y, 1, q, op)['runs_closed']
+                ctx.oblige('C05.events.runs_longer_than_one_instant_closed', f, tags=('C05',),
+                           use=('shape', 'canon', 'events', 'tte'),
+                           note='the property form of I4, proved from itself (outside the region of finding D06 while it is listed)')
+            return
         if outcome[0] == 'raise':
             cls = outcome[1]
             if cls == 'NetworkXError':
@@ -167,10 +188,8 @@ class AddInteraction(Contract):
         # C05 event log
         for name, f in spec.events_goals(g, x, y, 2, q, op).items():
             ctx.oblige('C05.events.' + name, f, tags=('C05',), use=('shape', 'canon', 'events', 'tte'))
-        for name, f in []:
-            if name == 'runs_closed':
-                ctx.oblige('C05.events.runs_longer_than_one_instant_closed', f, tags=('C05',),
-                           note='property form; proved from the strong pre-state form')
+        for name, f in spec.snapkeys_goals(g, x, y, q).items():
+            ctx.oblige('C04.' + name, f, tags=('C04',), use=('shape', 'canon', 'snapkeys'))
         for name, f in spec.tte_goals(g, q).items():
             ctx.oblige('C05.events.' + name, f, tags=('C05',), use=('shape', 'tte'))
         # C04 counters
